@@ -48,7 +48,7 @@ ASSUMPTIONS = ['CPython reference counting (the victim dies at the drop); '
                'already received the event']
 
 OWNERS = ['bare', 'comp', 'proc']
-HOWS = {'bare': ['del'], 'comp': ['remove', 'delete', 'clear'],
+HOWS = {'bare': ['del', 'clear'], 'comp': ['remove', 'delete', 'clear'],
         'proc': ['remove', 'clear']}
 
 
@@ -317,6 +317,11 @@ def _run_case(case):
             dropped.add(v)
             drop_events.append((v, v in received, runner_uid is not None))
         if how == 'del':
+            for v in victims:
+                strong[v] = None
+        elif how == 'clear' and owner == 'bare':
+            # the dispatcher forgets everybody, then the program does
+            d.clear()
             for v in victims:
                 strong[v] = None
         elif how == 'clear':
